@@ -90,31 +90,53 @@ class ListWrapper(typing.MutableSequence[T]):
         i: typing.Union[typing_extensions.SupportsIndex, slice],
         v: typing.Union[T, typing.Iterable[T]],
     ) -> None:
+        # Work out the list this assignment produces before anything is
+        # touched: list itself places the values, then every value just
+        # assigned is kept at the (last) position it was assigned to only.
+        # A module assigned while it sits elsewhere in this very list, or
+        # named twice on the right-hand side, is thereby moved rather than
+        # duplicated, as append, insert and extend move it.
+        new = list(self._data)
         if isinstance(i, slice):
             indices = range(*i.indices(len(self)))
             # (a value that is no iterable raises TypeError here, as it does
             # for list, and nothing has been touched)
             values = list(typing.cast(typing.Iterable[T], v))
-            if i.step not in (None, 1) and len(values) != len(indices):
-                # Fail before any element is detached, as list does.
-                raise ValueError(
-                    "attempt to assign sequence of size %d "
-                    "to extended slice of size %d"
-                    % (len(values), len(indices))
-                )
+            if indices.step != 1:
+                if len(values) != len(indices):
+                    # Fail before any element is detached, as list does.
+                    raise ValueError(
+                        "attempt to assign sequence of size %d "
+                        "to extended slice of size %d"
+                        % (len(values), len(indices))
+                    )
+                assigned = indices
+            else:
+                assigned = range(indices.start, indices.start + len(values))
+            new[i] = values
         elif -len(self._data) <= operator.index(i) < len(self._data):
-            indices = range(operator.index(i), operator.index(i) + 1)
-            values = [typing.cast(T, v)]
+            position = operator.index(i) % len(self._data)
+            assigned = range(position, position + 1)
+            new[position] = typing.cast(T, v)
         else:
             raise IndexError("list assignment index out of range")
-        for index in indices:
-            self._remove(self._data[index])
-        for value in values:
-            self._add(value)
-        if isinstance(i, slice):
-            self._data[i] = values
-        else:
-            self._data[i] = values[0]
+        last = {id(new[pos]): pos for pos in assigned}
+        new = [
+            value
+            for pos, value in enumerate(new)
+            if last.get(id(value), pos) == pos
+        ]
+        # Only the elements that leave the list are removed and only those
+        # that enter it are added; the ones that stay change position at most.
+        before = {id(value) for value in self._data}
+        after = {id(value) for value in new}
+        for value in list(self._data):
+            if id(value) not in after:
+                self._remove(value)
+        for value in new:
+            if id(value) not in before:
+                self._add(value)
+        self._data[:] = new
 
     @typing.overload
     def __delitem__(self, i: int) -> None:
